@@ -126,4 +126,52 @@ example : renderGhostLine { ghostIdent := .member (.named "g"), action := [Tok.l
     { (default : ImplContext) with kind := .ownedInto, hasPostInit := true }
     = .ok [Tok.ident "obj", dot, Tok.ident "g", eq, Tok.lit "7", semi] := by rfl
 
+def EndsSemi (ts : TS) : Prop := ∃ mid, ts = mid ++ [semi]
+theorem EndsSemi.single : EndsSemi [semi] := ⟨[], rfl⟩
+theorem EndsSemi.cons (a : Tok) {ts : TS} (h : EndsSemi ts) : EndsSemi (a :: ts) := by
+  obtain ⟨m, rfl⟩ := h; exact ⟨a :: m, rfl⟩
+theorem EndsSemi.append (xs : TS) {ts : TS} (h : EndsSemi ts) : EndsSemi (xs ++ ts) := by
+  obtain ⟨m, rfl⟩ := h; exact ⟨xs ++ m, by simp⟩
+def IsObjStmt (ts : TS) : Prop := ∃ rest, ts = Tok.ident "obj" :: dot :: rest ∧ EndsSemi rest
+
+theorem bind_ok_iff {α β : Type} (x : E α) (g : α → E β) (b : β) :
+    (x >>= g) = .ok b ↔ ∃ a, x = .ok a ∧ g a = .ok b := by
+  cases x <;> simp [bind, Except.bind]
+
+macro "ends_semi" : tactic => `(tactic| (repeat (first | exact EndsSemi.single | apply EndsSemi.cons | apply EndsSemi.append)))
+
+/-- C17 (statement dialect): in a body assembled on a default value (`hasPostInit`: a parameterless `#[parent]` member is
+    present) *every* member line of an Into / TryInto conversion — whatever the member's name kind, its instruction, the
+    counterpart's shape hint, nested-parent context and position — is one statement `obj. … ;`, never an initialiser
+    fragment `name: value,` / `value,`. (Members carrying a `#[parent]` instruction are skipped by the caller in Into
+    conversions, hence the hypothesis; three arms violated this on the pinned tree: fix bed8f1e.) -/
+theorem C17_post_init_line_is_statement (f : Field) (ctx : ImplContext) (hint : TypeHint) (idx : Nat) (pc : Option ParentChildField) (ts : TS)
+    (hk : ctx.kind.cls = .into) (hp : ctx.hasPostInit = true) (hu : hint ≠ .unit)
+    (hpa : f.attrs.hasParentAttr ctx.ty = false)
+    (h : renderStructLine f ctx hint idx pc = .ok ts) : IsObjStmt ts := by
+  unfold renderStructLine at h
+  simp only [hk, hp, hpa] at h
+  split at h
+  all_goals try (rename_i heq; cases heq; done)
+  all_goals try (exfalso; exact hu rfl; done)
+  all_goals try (simp [bind, Except.bind, pure, Except.pure, panicAt] at h; done)
+  all_goals try (
+    simp only [pure, Except.pure, Except.ok.injEq, ↓reduceIte] at h
+    subst h
+    refine ⟨_, by simp only [i, List.cons_append, List.nil_append, List.append_assoc]; rfl, ?_⟩
+    ends_semi
+    done)
+  all_goals (
+    repeat (rw [bind_ok_iff] at h; obtain ⟨_, _, h⟩ := h)
+    simp only [pure, Except.pure, Except.ok.injEq, ↓reduceIte] at h
+    subst h
+    refine ⟨_, by simp only [i, List.cons_append, List.nil_append, List.append_assoc]; rfl, ?_⟩
+    ends_semi)
+
+/-- non-vacuity: a named member against a positional counterpart (`as ()`) in such a body — the arm that used to emit
+    `self.a,` -/
+example : renderStructLine { (default : Field) with member := .named "a", idx := 0 }
+    { (default : ImplContext) with kind := .ownedInto, hasPostInit := true } .tuple 2 none
+    = .ok [Tok.ident "obj", dot, Tok.lit "2", eq, Tok.ident "self", dot, Tok.ident "a", semi] := by rfl
+
 end O2o
